@@ -187,6 +187,45 @@ def run(index, rep, tier):
                               "%s splices out a node with a single child (under `%s`) and re-attaches the grandchildren without adding the removed node's edge length to theirs: total tree length and leaf-to-leaf path lengths change" % (fi.qualname, norm(iff.test)))
         rep.floor("R07.4", "single-child splice-out sites", 5, nsites)
 
+    # ---- R07.4 merge semantics at the splice-out sites reached by re-seeding
+    with rep.section("R07.4 merge semantics"):
+        from . import c08
+        for q in (TREE + ".suppress_unifurcations", TREE + ".encode_bipartitions"):
+            fi = index.function(q)
+            res = c08.merge_semantics(fi)
+            if res is None:
+                raise AnalysisError("R07.4: %s: the edge-length merge at the single-child splice-out site was not recognised" % q)
+            iff, removed, child, table = res
+            want = {(False, False): "C+R", (False, True): "R", (True, False): "C", (True, True): "None"}
+            bad = {k: v for k, v in table.items() if v != want[k]}
+            rep.check(not bad, "R07.4", fi.qualname, "length merge at the splice-out site", fn_where(fi, iff), "%s: splicing out a single-child node conserves the path length in all four None-ness cases" % fi.name,
+                      "%s splices out a node with one child and merges the edge lengths wrongly for (removed is None, child is None) -> child afterwards %s (expected %s): re-seeding / outgroup positioning with update_bipartitions (which suppresses the old root through this code) silently drops that edge's length, so the total tree length and every path across it shrink"
+                      % (fi.qualname, {k: table[k] for k in sorted(bad)}, {k: want[k] for k in sorted(bad)}))
+
+    # ---- R07.7
+    with rep.section("R07.7"):
+        rep.rule("R07.7", "a zero length is a length: in the tree model and the distance code an edge length is never tested by truthiness (only against None), so 0 / 0.0 are not mistaken for 'no length'")
+        nlen = 0
+        for m in (TM + "_tree", TM + "_node", TM + "_edge", "dendropy.calculate.phylogeneticdistance", "dendropy.calculate.treemeasure"):
+            for fi in index.functions_in_module(m):
+                if not any(isinstance(x, ast.Attribute) and x.attr in ("length", "edge_length") for x in ast.walk(fi.node)):
+                    continue
+                cfg = cfg_of(fi)
+                for n in cfg.nodes:
+                    if n.kind != "test":
+                        continue
+                    e = n.ast
+                    islen = isinstance(e, ast.Attribute) and (e.attr == "edge_length" or (e.attr == "length" and isinstance(e.value, ast.Attribute) and e.value.attr in ("edge", "_edge")))
+                    if islen:
+                        nlen += 1
+                        rep.check(False, "R07.7", fi.qualname, "edge length tested by truthiness: %s" % norm(e), fn_where(fi, n.stmt), "",
+                                  "%s tests the edge length `%s` by truthiness: a length of 0 (zero-length terminal branches, ties) is then handled as a missing length, so distances from the root and the choice of the deeper of two most distant leaves in midpoint rooting go wrong exactly in the equal/zero-length cases the property names" % (fi.qualname, norm(e)))
+                    cp = compare_parts(e) if isinstance(e, ast.Compare) else None
+                    if cp and is_none(cp[2]) and isinstance(cp[0], ast.Attribute) and cp[0].attr in ("length", "edge_length"):
+                        nlen += 1
+                        rep.ob("R07.7", fn_where(fi, n.stmt), "%s: `%s` tests the length against None" % (fi.name, norm(e)[:50]), True)
+        rep.floor("R07.7", "tests on edge lengths in the tree model", 20, nlen)
+
     # ---- R07.5
     with rep.section("R07.5"):
         fi = index.function(TREE + ".reroot_at_edge")
